@@ -294,6 +294,7 @@ pub fn run_node(rep: &mut Report, tier: Tier, stakes: &[u32], node: usize, max_r
         canon_certs: true,
         max_states: 1_000_000,
         wall_cap_s: 600.0,
+        big_pool: false,
     };
     let s = Search::new(cfg.clone());
     let w = s.world.clone();
